@@ -1,7 +1,7 @@
 //! unit: u15c
 //! properties: C15
 //! note: Noise handshake acts (peer_channel_encryptor.rs outbound_noise_act / inbound_noise_act / hkdf): an act is accepted only with version 0, a valid key and an authentication tag made under the key both sides derive, and the side that accepts the act the other side produced ends with the same handshake hash, chaining key and temporary key (so the transport keys derived from them agree, or the peer is disconnected)
-//! trusted: env: cryptography is uninterpreted: SHA256 (engine stub recording the concatenation of its inputs), ECDH (ecdh(point, secret), with the Diffie-Hellman symmetry ecdh(pt(a), b) == ecdh(pt(b), a) as an axiom), HKDF (hkdf_extract_expand_twice -> two uninterpreted halves), ChaCha20-Poly1305 with empty plaintext (encrypt_with_ad writes the uninterpreted tag(key, n, ad); decrypt_with_ad succeeds iff the received bytes are that tag); PublicKey::from_slice succeeds iff the bytes are the serialization of a key (ser is injective: axiom); NodeSigner::ecdh is the ECDH with the node's secret; LightningError carries no fields (R10 rewrite of the struct literals)
+//! trusted: env: cryptography is uninterpreted: SHA256 (engine stub recording the concatenation of its inputs), ECDH (ecdh(point, secret), with the Diffie-Hellman symmetry ecdh(pt(a), b) == ecdh(pt(b), a) as an axiom), HKDF (hkdf_extract_expand_twice -> two uninterpreted halves), ChaCha20-Poly1305 with empty plaintext (encrypt_with_ad writes the uninterpreted tag(key, n, ad); decrypt_with_ad succeeds iff the received bytes are that tag); PublicKey::from_slice succeeds iff the bytes are the serialization of a key (ser is injective: axiom); NodeSigner::ecdh is the ECDH with the node's secret; LightningError keeps its `action` (the message string is dropped, R10); decrypt_with_ad's error is the source's "Bad MAC" DisconnectPeer (stub postcondition); process_act_three: the actions of its two own refusals are sliced
 //! trusted: R8: slice plumbing goes through external_body wrappers with the std meaning: `&act[1..34]` / `&act[34..]` -> sub(act, a, b), `res[1..34].copy_from_slice(x)` / `&mut res[34..]` as the tag destination -> put(res, at, x) / tag_into(res, ..); `x.serialize()[..]` is the 33-byte serialization; R10: `.map_err(|_| E)?` gets an explicit closure signature
 //! assume: acts are 50 bytes (the source asserts it)
 //! trusted: assume_specification for core::cmp::max / core::cmp::min (std definitions): present in every unit so that a change that introduces them is verified instead of being rejected by the tool
@@ -16,7 +16,8 @@ pub assume_specification<T: core::cmp::Ord>[core::cmp::min::<T>](a: T, b: T) -> 
 pub struct Secp256k1 {}
 pub struct SecretKey { pub id: u64 }
 #[derive(Clone, Copy)] pub struct PublicKey { pub id: u64 }
-pub struct LightningError {}
+pub enum ErrorAction { DisconnectPeer { msg: Option<u8> }, IgnoreError, IgnoreAndLog(u8), IgnoreDuplicateGossip, SendErrorMessage { msg: u8 }, SendWarningMessage { msg: u8, log_level: u8 }, DisconnectPeerWithWarning { msg: u8 } }
+pub struct LightningError { pub action: ErrorAction }
 pub uninterp spec fn pt(k: u64) -> u64;
 pub uninterp spec fn ser(p: u64) -> Seq<u8>;
 pub uninterp spec fn ecdh(point: u64, secret: u64) -> [u8; 32];
@@ -61,7 +62,7 @@ impl PeerChannelEncryptor {
     #[verifier::external_body] pub fn encrypt_tag_into(res: &mut [u8; 50], at: usize, n: u64, key: &[u8; 32], h: &[u8; 32])
         requires at == 34 ensures final(res)@ == old(res)@.subrange(0, 34) + aead_tag(*key, n, h@) { unimplemented!() }
     #[verifier::external_body] pub fn decrypt_with_ad(res: &mut [u8; 0], n: u64, key: &[u8; 32], h: &[u8; 32], cyphertext: &[u8]) -> (r: Result<(), LightningError>)
-        ensures r is Ok <==> cyphertext@ == aead_tag(*key, n, h@) { unimplemented!() }
+        ensures r is Ok <==> cyphertext@ == aead_tag(*key, n, h@), r is Err ==> r->Err_0.action is DisconnectPeer { unimplemented!() }
 //@extract lightning/src/ln/peer_channel_encryptor.rs :: impl PeerChannelEncryptor :: fn hkdf
 //@ret r
 //@ensures A
@@ -114,10 +115,11 @@ impl PeerChannelEncryptor {
     fn inbound_noise_act<'a, 'b, NS: NodeSigner>( state: &mut BidirectionalNoiseState, act: &[u8], secret_key: NoiseSecretKey<'a, 'b, NS>, )
 //@with
     fn inbound_noise_act<'a, 'b>( state: &mut BidirectionalNoiseState, act: &[u8], secret_key: NoiseSecretKey<'a, 'b>, )
+//@strip msgs
 //@rw * R10
-    LightningError { err: $m:seq, action: msgs::ErrorAction::DisconnectPeer { msg: None }, }
+    LightningError { err: $m:seq, action:
 //@with
-    LightningError {}
+    LightningError { action:
 //@rw R8
     PublicKey::from_slice(&act[1..34])
 //@with
@@ -133,7 +135,7 @@ impl PeerChannelEncryptor {
 //@rw R10
     .map_err(|_| $e:seq)?
 //@with
-    .map_err(|_e: ()| -> (o: LightningError) { $e })?
+    .map_err(|_e: ()| -> (o: LightningError) ensures o.action is DisconnectPeer { $e })?
 //@ret r
 //@requires
     act@.len() == 50,
@@ -143,6 +145,8 @@ impl PeerChannelEncryptor {
         && act@.subrange(34, 50) == aead_tag(r->Ok_0.1, 0, h_key(old(state).h, r->Ok_0.0.id)@)
         && final(state).ck == hkdf1(old(state).ck, ecdh(r->Ok_0.0.id, secret_of(secret_key)))
         && final(state).h == h_tag(h_key(old(state).h, r->Ok_0.0.id), act@.subrange(34, 50)),
+//@ensures P C15 every-reason-for-refusing-a-handshake-act-drops-the-connection
+    r is Err ==> r->Err_0.action is DisconnectPeer,
 //@mutant tag_checked_against_the_transcript_without_the_key
     PeerChannelEncryptor::decrypt_with_ad(&mut dec, 0, &temp_k, &state.h, &act[34..])?;
 //@with
@@ -153,6 +157,26 @@ impl PeerChannelEncryptor {
     if act[0] > 1 {
 //@end
 }
+//@extract lightning/src/ln/peer_channel_encryptor.rs :: impl PeerChannelEncryptor :: fn process_act_three
+//@strip msgs
+//@slice R15
+    if act_three[0] != 0 { return Err(LightningError { err: $m:seq, action: $a:seq, }); }
+//@with
+    fn action_on_unknown_act_three_version() -> ErrorAction { $a }
+//@ret r
+//@ensures P C15 an-act-three-with-an-unknown-version-byte-drops-the-connection
+    r is DisconnectPeer,
+//@end
+//@extract lightning/src/ln/peer_channel_encryptor.rs :: impl PeerChannelEncryptor :: fn process_act_three
+//@strip msgs
+//@slice R15
+    Err(_) => { return Err(LightningError { err: format!("Bad node_id from peer, {}", $x:seq), action: $a:seq, }) },
+//@with
+    fn action_on_bad_node_id_in_act_three() -> ErrorAction { $a }
+//@ret r
+//@ensures P C15 an-act-three-carrying-an-invalid-node-id-drops-the-connection
+    r is DisconnectPeer,
+//@end
 // lock step: the responder that receives the act an initiator produced from the same transcript and chaining key accepts it and ends in
 // the same state with the same temporary key (stated over the two contracts above)
 pub proof fn lemma_act_accepted_in_lock_step(h: [u8; 32], ck: [u8; 32], e: u64, s: u64)
